@@ -365,6 +365,7 @@ def option_cases(tier):
         out.append({"kind": "shortcut", "name": name})
     out.append({"kind": "unbound_tables"})
     out += pair_cases()
+    out += form_cases()
     return out
 
 
@@ -386,6 +387,63 @@ def integrator_names():
     out += [(n, [PID_INTEGRATOR, PID_CORRECTOR, PID_KERNEL]) for n in WH_SHORTCUT_NAMES]
     out += [("saba" + t, [PID_INTEGRATOR, PID_SABA]) for t in sabas] + [("SABA(10,6,4)", [PID_INTEGRATOR, PID_SABA])]
     return out
+
+
+# Input forms accepted by the option setters at HEAD (isinstance(value, int) branch = enumerator value; string branch with
+# the normalisation each setter applies): simulation-level setters lower-case the name; ri_whfast.kernel also drops
+# spaces; ri_saba.type / ri_eos.phi* drop spaces and parentheses (docs write "(10,6,4)", "LF4"); ri_trace.peri_mode is exact.
+def string_forms(path, name):
+    f = {"canonical": name}
+    if path in ("integrator", "boundary", "gravity", "collision", "ri_whfast.coordinates", "ri_whfast.kernel"):
+        f["upper"] = name.upper()
+        f["capitalised"] = name.capitalize()
+    if path == "ri_whfast.kernel" and len(name) > 3:
+        f["spaced"] = name[:3] + " " + name[3:]
+    if path in ("ri_saba.type", "ri_eos.phi0", "ri_eos.phi1"):
+        f["upper"] = name.upper()
+        f["parenthesised"] = "(" + name + ")"
+        f["spaced"] = "( " + name.replace(",", ", ").upper() + " )"
+    return f
+
+
+def form_cases():
+    """Every option setter driven through every accepted input form (and function options through a Python callable)."""
+    import importlib
+    out = []
+    for mod, dname, prefix, path, pid in OPTION_TABLES:
+        table = getattr(importlib.import_module(mod), dname)
+        names = list(table)
+        for i, name in enumerate(names):
+            other = names[(i + 1) % len(names)]
+            for form, val in string_forms(path, name).items():
+                out.append({"kind": "form", "path": path, "table": dname, "name": name, "form": form, "value": val, "preset": other})
+            out.append({"kind": "form", "path": path, "table": dname, "name": name, "form": "int", "value": table[name], "preset": other})
+    for n, reads in integrator_names():
+        if len(reads) > 1:
+            for form, val in (("as_written", n), ("lower", n.lower()), ("upper", n.upper())):
+                out.append({"kind": "form", "path": "integrator", "table": None, "name": n, "form": form, "value": val, "preset": "leapfrog"})
+    for path in sorted({t[0] for t in FUNC_OPTIONS}):
+        out.append({"kind": "form_callable", "path": path})
+    for path, name, sym, pid in FUNC_OPTIONS:
+        out.append({"kind": "form_func_name", "path": path, "name": name})
+    return out
+
+
+def c_leaves(L, tag="reb_simulation", base=0, prefix=""):
+    """{C member path: (offset, size)} of a structure, nested structures expanded, from the compiler-generated layout."""
+    out = {}
+    for m in L["structs"][tag]["members"]:
+        sub = m["decl"].split(":", 1)[1] if m["decl"].startswith("struct:") else None
+        if sub and not m["dims"] and sub in L["structs"]:
+            out.update(c_leaves(L, sub, base + m["offset"], prefix + m["name"] + "."))
+        else:
+            out[prefix + m["name"]] = (base + m["offset"], m["size"])
+    return out
+
+
+def c_snapshot(sim, L, leaves):
+    raw = ctypes.string_at(ctypes.addressof(sim), L["structs"]["reb_simulation"]["size"])
+    return {k: raw[o:o + n] for k, (o, n) in leaves.items()}
 
 
 def pair_cases():
@@ -507,6 +565,69 @@ def run_option(case, ctx):
         if rb.getpath(sim, path) != rb.getpath(fresh, path):
             raise Violation("sim.%s = %r reads back as %r on a fresh simulation but as %r after sim.%s = %r"
                             % (path, name, rb.getpath(fresh, path), rb.getpath(sim, path), ppath, pval))
+    elif kind in ("form", "form_callable", "form_func_name"):
+        leaves = c_leaves(L)
+        path = case["path"]
+        ctx.cls("%s/%s" % (kind, path))
+        sim = rebound.Simulation()
+        if kind == "form":
+            name, val = case["name"], case["value"]
+            rb.setpath(sim, path, case["preset"])
+            if case["table"] is None:
+                allowed = {"integrator"} | ({"ri_whfast.corrector", "ri_whfast.kernel"} if name in WH_SHORTCUT_NAMES else {"ri_saba.type"})
+                ref = rebound.Simulation()
+                ref.integrator = name           # canonical spelling (checked by the shortcut / pair cases)
+                expect = {k: v for k, v in c_snapshot(ref, L, leaves).items() if k in allowed}
+                want_back = ref.integrator
+            else:
+                mod, dname, prefix, _, pid = [t for t in OPTION_TABLES if t[1] == case["table"] and t[3] == path][0]
+                table = getattr(importlib.import_module(mod), dname)
+                allowed = {path}
+                expect = {path: int(table[name]).to_bytes(leaves[path][1], "little", signed=table[name] < 0)}
+                want_back = name
+        else:
+            allowed = {path}
+            val = None
+        before = c_snapshot(sim, L, leaves)
+        try:
+            if kind == "form_callable":
+                nargs = {"ri_mercurius.L": 3, "ri_trace.S": 3, "ri_trace.S_peri": 2, "collision_resolve": 2}[path]
+                cb = (lambda a, b, c: 0) if nargs == 3 else (lambda a, b: 0)
+                if path == "ri_mercurius.L":
+                    cb = lambda a, b, c: 0.5
+                rb.setpath(sim, path, cb)
+            elif kind == "form_func_name":
+                rb.setpath(sim, path, case["name"])
+            else:
+                rb.setpath(sim, path, val)
+        except Exception as e:
+            raise Violation("sim.%s = %r (%s form) raises %s: %s" % (path, val, case.get("form", kind), type(e).__name__, e),
+                            signature="form:%s" % path)
+        after = c_snapshot(sim, L, leaves)
+        changed = sorted(k for k in before if before[k] != after[k])
+        stray = [k for k in changed if k not in allowed]
+        what = "sim.%s = %r (%s)" % (path, val if kind == "form" else case.get("name", "<python callable>"), case.get("form", kind))
+        if stray:
+            raise Violation("%s changed C member(s) %s besides %s" % (what, stray, sorted(allowed)), signature="form:%s" % path,
+                            changed=changed)
+        if kind == "form":
+            for k, v in expect.items():
+                if after[k] != v:
+                    raise Violation("%s: C member %s holds %d, expected %d" % (what, k, int.from_bytes(after[k], "little"),
+                                                                               int.from_bytes(v, "little")), signature="form:%s" % path)
+            back = rb.getpath(sim, path)
+            if back != want_back:
+                raise Violation("%s reads back as %r, expected %r" % (what, back, want_back), signature="form:%s" % path)
+        else:
+            got = int.from_bytes(after[path], "little")
+            named = {ctypes.cast(getattr(rebound.clibrebound, t[2]), ctypes.c_void_p).value: t for t in FUNC_OPTIONS}
+            if kind == "form_callable":
+                if got == 0 or got in named or after[path] == before[path]:
+                    raise Violation("%s: C member holds %r (not a new callback pointer)" % (what, got), signature="form:%s" % path)
+            else:
+                sym = [t[2] for t in FUNC_OPTIONS if t[0] == path and t[1] == case["name"]][0]
+                if named.get(got, (None, None, None))[2] != sym:
+                    raise Violation("%s: C member does not hold &%s" % (what, sym), signature="form:%s" % path)
     elif kind == "unbound_tables":
         # make new name tables visible: every module-level {str: int} dict with an upper-case name must be bound above
         import pkgutil
